@@ -132,7 +132,7 @@ package route
 //@   ensures nopanic
 //@   ensures gcInv(c) && len(c.l) == old(len(c.l))
 //@   ensures result1 != nil ==> !globOK(pattern)
-//@   ensures result1 == nil ==> result0 != nil
+//@   ensures result1 == nil ==> result0 != nil && globFor(result0, pattern)
 //@
 //@ // ---- C04 / C06: pickers ------------------------------------------------------------------------------
 //@ func var:randIntn(n int) (result int)
@@ -160,3 +160,159 @@ package route
 //@
 //@ // the round-robin cursor is the only state a lookup may change; it is shared between requests
 //@ shared atomic Route.total props C06
+//@
+//@ // ---- C03: which route serves a request ---------------------------------------------------------------
+//@ spec fun matchesFn(m matcher, uri string, r *Route) bool
+//@
+//@ func type:matcher(uri string, r *Route) (result bool)
+//@   requires r != nil
+//@   assigns nothing
+//@   ensures result == matchesFn(self, uri, r)
+//@
+//@ func type:picker(r *Route) (result *Target)
+//@   requires r != nil && len(r.wTargets) > 0
+//@   assigns r.total
+//@   ensures exists k int :: 0 <= k && k < len(r.wTargets) && result == r.wTargets[k]
+//@
+//@ func prefixMatcher
+//@   props C03
+//@   requires r != nil
+//@   assigns nothing
+//@   ensures nopanic
+//@   ensures result == hasPrefix(uri, r.Path)
+//@
+//@ func iPrefixMatcher
+//@   props C03
+//@   requires r != nil
+//@   assigns nothing
+//@   ensures nopanic
+//@   ensures result == hasPrefix(toLower(uri), toLower(r.Path))
+//@
+//@ func globMatcher
+//@   props C03
+//@   requires r != nil && r.Glob != nil
+//@   assigns nothing
+//@   ensures nopanic
+//@   ensures result == globMatch(r.Glob, uri)
+//@
+//@ func (Routes).find
+//@   props C03 C05
+//@   requires forall k int :: 0 <= k && k < len(rt) ==> rt[k] != nil
+//@   assigns nothing
+//@   ensures nopanic
+//@   ensures result == nil ==> forall k int :: 0 <= k && k < len(rt) ==> rt[k].Path != path
+//@   ensures result != nil ==> result.Path == path && exists k int :: 0 <= k && k < len(rt) && rt[k] == result && forall j int :: 0 <= j && j < k ==> rt[j].Path != path
+//@   loop 1 invariant forall k int :: 0 <= k && k <= rangeindex ==> rt[k].Path != path
+//@
+//@ func (Routes).Len
+//@   props C03
+//@   assigns nothing
+//@   ensures nopanic
+//@   ensures result == len(rt)
+//@
+//@ func (Routes).Less
+//@   props C03
+//@   requires 0 <= i && i < len(rt) && 0 <= j && j < len(rt) && rt[i] != nil && rt[j] != nil
+//@   assigns nothing
+//@   ensures nopanic
+//@
+//@ func (Routes).Swap
+//@   props C03
+//@   requires 0 <= i && i < len(rt) && 0 <= j && j < len(rt)
+//@   assigns rt[*]
+//@   ensures nopanic
+//@   ensures rt[i] == old(rt[j]) && rt[j] == old(rt[i])
+//@   ensures forall k int :: 0 <= k && k < len(rt) && k != i && k != j ==> rt[k] == old(rt[k])
+//@
+//@ // every route of the list is usable: non-nil, its targets non-nil, and a ring exists whenever a pick is needed
+//@ spec fun wfRoute(r *Route) bool opaque = r != nil && (forall j int :: 0 <= j && j < len(r.Targets) ==> r.Targets[j] != nil) && (len(r.Targets) > 1 ==> len(r.wTargets) > 0) && (forall j int :: 0 <= j && j < len(r.wTargets) ==> exists i int :: 0 <= i && i < len(r.Targets) && r.wTargets[j] == r.Targets[i])
+//@ spec fun wfRoutes(rt Routes) bool = forall k int :: 0 <= k && k < len(rt) ==> wfRoute(rt[k])
+//@ spec fun wfTable(t Table) bool = forall h string :: wfRoutes(t[h])
+//@
+//@ func (Table).lookup
+//@   props C03 C06
+//@   requires wfTable(t) && pick != nil && match != nil
+//@   assigns Route.total
+//@   ensures nopanic
+//@   // routed only to a target of the first route (in table order) whose path matches
+//@   ensures result != nil ==> exists k int :: 0 <= k && k < len(t[toLower(host)]) && matchesFn(match, path, t[toLower(host)][k]) && (forall j int :: 0 <= j && j < k ==> !matchesFn(match, path, t[toLower(host)][j])) && (exists i int :: 0 <= i && i < len(t[toLower(host)][k].Targets) && result == t[toLower(host)][k].Targets[i])
+//@   // and it is routed whenever the first matching route has a target
+//@   ensures result == nil ==> forall k int :: 0 <= k && k < len(t[toLower(host)]) && matchesFn(match, path, t[toLower(host)][k]) && (forall j int :: 0 <= j && j < k ==> !matchesFn(match, path, t[toLower(host)][j])) ==> len(t[toLower(host)][k].Targets) == 0
+//@   loop 1 invariant forall j int :: 0 <= j && j <= rangeindex ==> !matchesFn(match, path, t[host][j])
+//@
+//@ // host of the request as routes see it: default port removed, lower case
+//@ spec fun normNoLower(host string, tls bool) string = (!tls && hasSuffix(host, ":80")) ? host[:len(host)-3] : ((tls && hasSuffix(host, ":443")) ? host[:len(host)-4] : host)
+//@ spec fun normHost(host string, tls bool) string opaque = toLower(normNoLower(host, tls))
+//@
+//@ func normalizeHostNoLower
+//@   props C03
+//@   assigns nothing
+//@   ensures nopanic
+//@   ensures result == normNoLower(host, tls)
+//@
+//@ func normalizeHost
+//@   props C03
+//@   assigns nothing
+//@   ensures nopanic
+//@   ensures result == normHost(host, tls)
+//@
+//@ // membership in a list of host names
+//@ spec fun inList(hs []string, x string) bool opaque = exists k int :: 0 <= k && k < len(hs) && hs[k] == x
+//@
+//@ func sortHostsReverseHostPort
+//@   trusted
+//@   assigns hosts[*]
+//@   ensures result == hosts
+//@   ensures forall x string :: inList(result, x) == old(inList(hosts, x))
+//@
+//@ func (Table).matchingHostNoGlob
+//@   props C03
+//@   requires req != nil
+//@   assigns nothing
+//@   ensures nopanic
+//@   // exactly the (lower-cased) host patterns equal to the request host, case-insensitively and without default port
+//@   ensures forall p string :: hasKey(t, p) && normHost(p, req.TLS != nil) == normHost(req.Host, req.TLS != nil) ==> inList(hosts, toLower(p))
+//@   ensures forall x string :: inList(hosts, x) ==> exists p string :: hasKey(t, p) && x == toLower(p) && normHost(p, req.TLS != nil) == normHost(req.Host, req.TLS != nil)
+//@   ensures hosts == nil || fresh(hosts)
+//@   loop 1 invariant hosts == nil || fresh(hosts)
+//@   loop 1 invariant forall p string :: visited(p) && normHost(p, req.TLS != nil) == normHost(req.Host, req.TLS != nil) ==> inList(hosts, toLower(p))
+//@   loop 1 invariant forall x string :: inList(hosts, x) ==> exists p string :: hasKey(t, p) && x == toLower(p) && normHost(p, req.TLS != nil) == normHost(req.Host, req.TLS != nil)
+//@
+//@ func (Table).matchingHosts
+//@   props C03 C06
+//@   requires req != nil && gcInv(globCache) && len(globCache.l) > 0
+//@   assigns globCache.n, globCache.h, globCache.l[*], smapGlobs
+//@   ensures nopanic
+//@   ensures gcInv(globCache) && len(globCache.l) == old(len(globCache.l))
+//@   ensures hosts == nil || fresh(hosts)
+//@   // exactly the host patterns whose glob matches the request host (both without default port, lower case)
+//@   ensures forall p string :: hasKey(t, p) && globOK(normHost(p, req.TLS != nil)) && globMatches(normHost(p, req.TLS != nil), normHost(req.Host, req.TLS != nil)) ==> inList(hosts, p)
+//@   ensures forall x string :: inList(hosts, x) ==> hasKey(t, x) && globMatches(normHost(x, req.TLS != nil), normHost(req.Host, req.TLS != nil))
+//@   loop 1 invariant hosts == nil || fresh(hosts)
+//@   loop 1 invariant gcInv(globCache) && len(globCache.l) == old(len(globCache.l))
+//@   loop 1 invariant forall p string :: visited(p) && globOK(normHost(p, req.TLS != nil)) && globMatches(normHost(p, req.TLS != nil), normHost(req.Host, req.TLS != nil)) ==> inList(hosts, p)
+//@   loop 1 invariant forall x string :: inList(hosts, x) ==> hasKey(t, x) && globMatches(normHost(x, req.TLS != nil), normHost(req.Host, req.TLS != nil))
+//@
+//@ func (Table).LookupHost
+//@   props C03
+//@   requires wfTable(t) && pick != nil
+//@   assigns Route.total
+//@   ensures nopanic
+//@
+//@ // ---- C13: redirect location is a function of the route target and this request -----------------------
+//@ func (*Target).BuildRedirectURL
+//@   props C13 C06
+//@   requires t != nil && t.URL != nil && requestURL != nil
+//@   assigns t.RedirectURL
+//@   ensures nopanic
+//@   ensures t.RedirectURL != nil && fresh(t.RedirectURL)
+//@
+//@ func (Table).Lookup
+//@   props C03 C06 C13
+//@   requires req != nil && req.URL != nil && pick != nil && match != nil && wfTable(t)
+//@   requires globDisabled || (gcInv(globCache) && len(globCache.l) > 0)
+//@   requires forall h string, k int, j int :: 0 <= k && k < len(t[h]) && 0 <= j && j < len(t[h][k].Targets) ==> t[h][k].Targets[j].URL != nil
+//@   // the only effects of a lookup visible to other requests: the round-robin cursor and the host-pattern cache
+//@   assigns Route.total, req.URL.Host, globCache.n, globCache.h, globCache.l[*], smapGlobs
+//@   ensures nopanic
+//@   loop 1 invariant wfTable(t)
